@@ -368,7 +368,7 @@ class SplineGeometry(Geometry):
                     tmp = True if abs(s - o) < tol else False
                     chk.append(tmp)
                 chk_ctrlpts.append(all(chk))
-            if not all(chk_kv):
+            if not all(chk_ctrlpts):
                 return False
         except Exception:
             return False
